@@ -116,8 +116,9 @@ type usagePair struct {
 
 // updateUsageQueue zeroes the accumulated usage all ActiveUsers valve and put the usage data im usageUpdateQueue
 func (panel *userPanel) updateUsageQueue() {
-	panel.activeUsersM.Lock()
+	// same order as commitUpdate (queue, then users): the opposite order deadlocks two overlapping rounds
 	panel.usageUpdateQueueM.Lock()
+	panel.activeUsersM.Lock()
 	for _, user := range panel.activeUsers {
 		if user.bypass {
 			continue
